@@ -172,6 +172,9 @@ class MUSE(BaseClassifier):
         self.highest_bits = np.zeros(self.n_dims)
 
         self.SFA_transformers = [[] for _ in range(self.n_dims)]
+        # start from a clean state, fit may be called on a fitted classifier
+        self.window_sizes = []
+        self.max_window = 100
 
         # the words of all dimensions and all time series
         all_words = [dict() for _ in range(X.shape[0])]
